@@ -387,6 +387,14 @@ def _mirsym():
         bounds="column name sets {b,a,c}, {col_b,col_a}, {a} (quick) + {b,A,c}, {z,m,a,q} (thorough), given unsorted; per-column sizes (multiples of 8 below 2^20) and max_partition_size_bytes symbolic; Column::heap_size_of_children stubbed, Sha256 uninterpreted",
         spec=sr.SubpartitionWriterSpec(), stubs=["Column::heap_size_of_children -> symbolic size per column", "Sha256 -> uninterpreted", "slice::sort_by -> insertion sort driven by the real comparison closure"])
 
+    from .specs import server as ssv
+    add("C16.d/encode_column", "C16", "mirsym", Q,
+        "server::encode_column (the column handed to the response encoder): the api::Column variant chosen by the type-signature dispatch represents every row of the engine's column - integers, float bits and strings preserved, NULL as Null / the reserved NaN, no unreachable!() arm reachable, XOR compression exactly when requested",
+        ["server::encode_column (+ its five closures)"],
+        bounds="Int/Float/String columns of 2 rows, Null(n) with n symbolic, every Mixed column of 0-2 (quick) / 0-3 (thorough) rows over {Int, Str, NULL, Float} with symbolic values (strings of one symbolic byte); xor_float::double::encode stubbed as a recorder (the codec is C16.b)",
+        spec=ssv.EncodeColumnSpec(), stubs=["xor_float::double::encode -> recorder of the float slice it is given"],
+        assumptions=["a genuine float equal to the reserved NULL NaN bit pattern is outside the value domain"])
+
 
 _mirsym()
 
